@@ -47,7 +47,7 @@ Nxt == StRec(msgs', files', fseq', next', ss')
 
 NoOut == [s \in Sess |-> <<>>]
 NoCode == [name |-> "", vv |-> 0, src |-> <<>>, dst |-> <<>>]
-NoTold == [next |-> 0, vv |-> 0, exists |-> 0]
+NoTold == [next |-> 0, vv |-> 0, exists |-> 0, counts |-> FALSE, recent |-> 0, unseen |-> 0, first |-> 0]
 Ev(act, s) ==
     [act |-> act, sess |-> s, uid |-> FALSE, status |-> "OK", set |-> <<>>, mode |-> "",
      flags |-> <<>>, silent |-> FALSE, mbox |-> "", src |-> "", msgid |-> 0, date |-> 0,
@@ -179,7 +179,9 @@ Select(s, m, ro) ==
                                             pend |-> <<>>, open |-> TRUE]],
                   out |-> [NoOut EXCEPT ![s] = <<It("EXISTS", Len(msgs[m]), Uids(msgs[m]))>>]]
        IN Finish(Acc0, a1, [Ev(IF ro THEN "Examine" ELSE "Select", s) EXCEPT !.mbox = m,
-                    !.told = [next |-> next[m], vv |-> Vv(m), exists |-> Len(msgs[m])]])
+                    !.told = [next |-> next[m], vv |-> Vv(m), exists |-> Len(msgs[m]), counts |-> TRUE,
+                              recent |-> CountWith(msgs[m], "Recent"), unseen |-> 0,
+                              first |-> FirstWith(msgs[m], "unseen")]])
     /\ UNCHANGED <<msgs, files, fseq, next, dirty, force, nextId, agent>>
 
 Unselect(s) ==
